@@ -13,6 +13,14 @@ if [ ! -f $W/_build/build.ninja ]; then
 fi
 mkdir -p /tmp/verify_work/$ID/$V
 rundemo() {
+  if [ -f "$D/demo.sh" ]; then
+    # uniform convention: demo.sh <worktree>; run a scratch copy
+    rm -rf /tmp/verify_work/$ID/$V/demo && mkdir -p /tmp/verify_work/$ID/$V/demo
+    cp -r "$D"/* /tmp/verify_work/$ID/$V/demo/
+    sh /tmp/verify_work/$ID/$V/demo/demo.sh $W > /tmp/verify_work/$ID/$V/demo_$1.log 2>&1
+    echo $?
+    return
+  fi
   # rewrite the agent's paths to this worktree / the committed copy
   sed -e "s#/tmp/wt_$ID#$W#g" -e "s#/tmp/seeded_$ID/$V#/tmp/verify_work/$ID/$V#g" "$D/demo_cmd.txt" > /tmp/verify_work/$ID/$V/demo_cmd.sh
   cp -r "$D"/* /tmp/verify_work/$ID/$V/ 2>/dev/null
@@ -20,14 +28,16 @@ rundemo() {
   (cd /tmp/verify_work/$ID/$V && bash demo_cmd.sh) > /tmp/verify_work/$ID/$V/demo_$1.log 2>&1
   echo $?
 }
-git -C $W checkout -q -- .
+git -C $W checkout -q -- . ; git -C $W clean -fdq -e _build
 ninja -C $W/_build -k 0 > /tmp/verify_work/$ID/$V/build_head.log 2>&1
 demo_head=$(rundemo head)
 git -C $W apply "$D/patch.diff" || { echo "$ID/$V patch does not apply"; exit 2; }
 ninja -C $W/_build -k 0 > /tmp/verify_work/$ID/$V/build_patch.log 2>&1
 newfail=$(grep -c "^FAILED" /tmp/verify_work/$ID/$V/build_patch.log)
-(ctest --test-dir $W/_build -j8 --timeout 900 2>&1 | tail -15) > /tmp/verify_work/$ID/$V/ctest_patch.log
-failed=$(grep -E "^\s+[0-9]+ - " /tmp/verify_work/$ID/$V/ctest_patch.log | grep -v "Disabled\|GeantVolumeMapper" | tr -s ' ' | cut -c1-80 | tr '\n' ';')
+(ctest --test-dir $W/_build -j8 --timeout 900 2>&1 | tail -15) > /tmp/verify_work/$ID/$V/ctest_patch_first.log
+# the machine is shared: re-run whatever failed (timeouts under load) alone
+(ctest --test-dir $W/_build --rerun-failed -j2 --timeout 3000 2>&1 | tail -15) > /tmp/verify_work/$ID/$V/ctest_patch.log
+failed=$(grep -E "^\s+[0-9]+ - " /tmp/verify_work/$ID/$V/ctest_patch.log | grep -v "Disabled\|GeantVolumeMapper\|MpiCommunicator" | tr -s ' ' | cut -c1-80 | tr '\n' ';')
 demo_patch=$(rundemo patch)
 git -C $W checkout -q -- .
 python3 - "$D" "$demo_head" "$demo_patch" "$failed" "$newfail" <<'PY'
